@@ -416,6 +416,22 @@ class Mask:
         return f"Mask({self.conds})"
 
 
+class MaskLoad:
+    """base[mask] for a data-dependent mask: the selected rows in order; its length depends on the data."""
+
+    __slots__ = ("base", "mask")
+
+    def __init__(self, base, mask):
+        self.base = base
+        self.mask = mask
+
+    def key(self):
+        return ("maskload", keyof(self.base), self.mask.key())
+
+    def __repr__(self):
+        return f"<rows of {getattr(self.base, 'shape', '?')} array selected by a data-dependent mask>"
+
+
 class MaskedArray:
     """np.ma masked array model: data array + Mask-like per-cell conditions (flat)."""
 
